@@ -1,5 +1,7 @@
 package p
 
+import "sync"
+
 // Not a past finding: regression probes. String constants containing '%' in every position goose prints a branch or a call.
 
 func w0() string {
@@ -40,4 +42,39 @@ func w3() uint64 {
 		}
 	}
 	return acc
+}
+
+func w4() uint64 {
+	var n uint64 = 0
+	wg := new(sync.WaitGroup)
+	wg.Add(1)
+	go func() {
+		s := "100%"
+		n = uint64(len(s))
+		wg.Done()
+	}()
+	wg.Wait()
+	return n
+}
+
+func w5() uint64 {
+	var n uint64 = 0
+	mu := new(sync.Mutex)
+	wg := new(sync.WaitGroup)
+	wg.Add(1)
+	go func() {
+		mu.Lock()
+		if n == 0 {
+			a := "%d items"
+			b := "%"
+			n = uint64(len(a)) + uint64(len(b))
+		}
+		mu.Unlock()
+		wg.Done()
+	}()
+	wg.Wait()
+	mu.Lock()
+	r := n
+	mu.Unlock()
+	return r
 }
